@@ -762,6 +762,51 @@ def check_iet_get(ctx):
     get = ctx.tree.func(IET, "IncludeExcludeTree.get")
     ps = [p for p in A.func_params(get) if p != "self"]
     loops = [n for n in A.walk_local(get) if isinstance(n, ast.For)]
+    # whatever shape the selection has: the recursion into a subtree is made only with a value found to be a dictionary -- a listed
+    # prefix whose value in this context is a scalar selects nothing there (get of a subtree iterates value.items())
+    sub_names = set()
+    for l in loops:
+        if "self.subtrees" in A.src(l.iter) and isinstance(l.target, ast.Tuple) and len(l.target.elts) == 2 and A.src(l.iter).endswith(".items()"):
+            sub_names.add(A.src(l.target.elts[1]))
+    for a in A.walk_local(get):
+        if isinstance(a, ast.Assign) and len(a.targets) == 1 and isinstance(a.targets[0], ast.Name) and isinstance(a.value, ast.Subscript) \
+                and A.src(a.value.value) == "self.subtrees":
+            sub_names.add(a.targets[0].id)
+    nrec = 0
+    seen_bad = set()
+    for p in P.paths_of(get):
+        for i, c in p.calls():
+            if not (isinstance(c.func, ast.Attribute) and c.func.attr == "get" and len(c.args) == 1):
+                continue
+            recv = c.func.value
+            if not ((isinstance(recv, ast.Subscript) and A.src(recv.value) == "self.subtrees") or A.src(recv) in sub_names):
+                continue
+            nrec += 1
+            arg = c.args[0]
+            if isinstance(arg, ast.Name):
+                d = A.single_def(get, arg.id)
+                forms = {arg.id} | ({A.src(d)} if d is not None else set())
+            else:
+                forms = {A.src(arg)} | {n for n in A.names_in(get) if A.single_def(get, n) is not None and A.src(A.single_def(get, n)) == A.src(arg)}
+            guarded = False
+            for j, e in enumerate(p.ev[:i + 1]):
+                if e[0] != "cond":
+                    continue
+                for t, pol in A.literals(p._explained(e[1], j), e[2]):
+                    for f in forms:
+                        cls = _isinstance_of(t, f, res)
+                        if cls is not None and pol and (res.canon(cls) or "").rsplit(".", 1)[-1] in ("dict", "Mapping", "MutableMapping"):
+                            guarded = True
+            if not guarded and c not in seen_bad:
+                seen_bad.add(c)
+                ctx.violation("C15-d", c, "IncludeExcludeTree.get recurses into a subtree with `%s` on a path [%s] that has not found it to "
+                              "be a dictionary: where a listed prefix holds a scalar in this context the subtree's get iterates "
+                              "`.items()` of it and raises, instead of selecting nothing there -- GroupBy/SelectContext keys taken from "
+                              "such a context fail for one value of the flow only" % (A.src(c), p.describe(4)),
+                              construct="get-recursion-unguarded", path=p)
+    ctx.instances_floor("C15-d/recursion", nrec, 2, "recursive get calls on enumerated paths")
+    if not seen_bad:
+        ctx.ok("C15-d", get, "every recursion into a subtree is made with a value tested isinstance(., dict)")
     if not ctx.require(len(ps) == 1 and loops and all(A.src(l.iter) == "%s.items()" % ps[0] and isinstance(l.target, ast.Tuple)
                                                        and len(l.target.elts) == 2 for l in loops), "C15-d", get,
                        "IncludeExcludeTree.get: expected loops `for key, value in context.items()`"):
